@@ -106,7 +106,7 @@ impl IterConfig for PartitionIterConfig {
         from_position: u64,
         dir: IterDirection,
         segment_index: usize,
-        segments_len: usize,
+        _segments_len: usize,
     ) -> Result<Option<(Vec<u64>, usize)>, Self::Error> {
         let partition_index = match reader_set.partition_index.as_mut() {
             Some(index) => index,
@@ -114,12 +114,10 @@ impl IterConfig for PartitionIterConfig {
         };
 
         let key = match partition_index.get_key(self.partition_id)? {
-            Some(key) if key.sequence_min <= from_position || segment_index == 0 => key,
-            Some(key)
-                if matches!(dir, IterDirection::Reverse) && segment_index == segments_len - 1 =>
-            {
-                key
-            }
+            Some(key) if key.sequence_min <= from_position => key,
+            // Forward from before this key's first position: everything in the oldest segment
+            // qualifies. (In reverse nothing here is at or before the position.)
+            Some(key) if matches!(dir, IterDirection::Forward) && segment_index == 0 => key,
             _ => return Ok(None),
         };
 
@@ -198,7 +196,7 @@ impl IterConfig for StreamIterConfig {
         from_position: u64,
         dir: IterDirection,
         segment_index: usize,
-        segments_len: usize,
+        _segments_len: usize,
     ) -> Result<Option<(Vec<u64>, usize)>, Self::Error> {
         let stream_index = match reader_set.stream_index.as_mut() {
             Some(index) => index,
@@ -206,12 +204,10 @@ impl IterConfig for StreamIterConfig {
         };
 
         let key = match stream_index.get_key(&self.stream_id)? {
-            Some(key) if key.version_min <= from_position || segment_index == 0 => key,
-            Some(key)
-                if matches!(dir, IterDirection::Reverse) && segment_index == segments_len - 1 =>
-            {
-                key
-            }
+            Some(key) if key.version_min <= from_position => key,
+            // Forward from before this key's first position: everything in the oldest segment
+            // qualifies. (In reverse nothing here is at or before the position.)
+            Some(key) if matches!(dir, IterDirection::Forward) && segment_index == 0 => key,
             _ => return Ok(None),
         };
 
